@@ -290,7 +290,12 @@ func runOne(ck *Check, tier string, seed uint64, i int, known map[string]bool, m
 			if r := recover(); r != nil {
 				st := string(debug.Stack())
 				// a panic on the case goroutine: engine code called synchronously or harness bug
-				if strings.Contains(firstNonRuntimeFrame(st), "/verif/") {
+				if harnessTornMarshal(st, fmt.Sprint(r)) {
+					// the harness's own callback marshalled the live table while an engine goroutine was writing it
+					// (unlocked API method publishing an event): a torn read made by the harness, not an engine fault
+					res.Verdict = Inconclusive
+					res.Detail = fmt.Sprintf("harness read of the live table torn by a concurrent engine write: %v", r)
+				} else if strings.Contains(firstNonRuntimeFrame(st), "/verif/") {
 					res.Verdict = Inconclusive
 					res.Detail = fmt.Sprintf("harness-panic: %v\n%s", r, st)
 				} else {
@@ -685,6 +690,26 @@ func tornMarshal(es string) bool {
 		blk = blk[:4000]
 	}
 	return strings.Contains(blk, "encoding/json.(*encodeState).marshal") && (strings.Contains(blk, "reflect:") || strings.Contains(blk, "index out of range") || strings.Contains(blk, "nil pointer"))
+}
+
+// harnessTornMarshal: a recovered panic inside encoding/json's marshalling whose caller is the harness itself
+// (cloneTable / TableJSON in a callback or a noise reader).
+func harnessTornMarshal(stack, msg string) bool {
+	if !(strings.Contains(msg, "reflect:") || strings.Contains(msg, "index out of range") || strings.Contains(msg, "nil pointer") || strings.Contains(msg, "slice bounds")) {
+		return false
+	}
+	i := strings.Index(stack, "encoding/json.(*encodeState).marshal(")
+	if i < 0 {
+		return false
+	}
+	rest := stack[i:]
+	j := strings.Index(rest, "encoding/json.Marshal(")
+	if j < 0 {
+		return false
+	}
+	lines := strings.Split(rest[j:], "\n")
+	// lines[0] = json.Marshal(...), lines[1] = its file, lines[2] = the caller
+	return len(lines) > 2 && strings.HasPrefix(lines[2], "verif/")
 }
 
 func crashSite(es string) string {
